@@ -256,7 +256,8 @@ fn bstr_wrap(inner: &[u8]) -> Vec<u8> {
 /// ... `depth` levels.  form: 0 bare signature, 1 array of one signature, 2 array of two.
 /// Built iteratively from the inside out.
 pub fn b1_header(depth: usize, form: u8) -> Vec<u8> {
-    let mut inner: Vec<u8> = vec![0xa1, 0x04, 0x41, 0x11]; // {4: h'11'}
+    // {4: h'11', 99: "a\u{2603}\u{10151}\u{e9}"}: the innermost header carries a text with 2-, 3- and 4-byte characters
+    let mut inner: Vec<u8> = vec![0xa2, 0x04, 0x41, 0x11, 0x18, 0x63, 0x6a, 0x61, 0xe2, 0x98, 0x83, 0xf0, 0x90, 0x85, 0x91, 0xc3, 0xa9];
     for level in 0..depth {
         // sig = [bstr(inner), {}, h'']   or, for the mixed forms 3 / 4 on alternate levels,
         // sig = [h'', inner, h'']  (nesting through the unprotected header)
@@ -657,6 +658,43 @@ pub fn b7_flat(family: u8, n: usize) -> (Ty, Vec<u8>, &'static str) {
                 _ => "claims set with n claims in scattered key order",
             })
         }
+        21 | 22 | 23 | 24 | 25 | 26 => {
+            // maps whose n labels all collide under popular non-cryptographic hashes: texts built from
+            // the blocks "Aa" / "BB" (equal under every 31-multiplier string hash), or integers whose
+            // two 32-bit halves are equal (hi ^ lo == 0).  A hash-bucketed duplicate detector degrades
+            // to a linear scan per label.
+            let (ty, first): (Ty, Vec<u8>) = match family % 3 {
+                0 => (Ty::Header, vec![]),
+                1 => (Ty::Key, vec![0x01, 0x02]),
+                _ => (Ty::Claims, vec![]),
+            };
+            let texts = family < 24;
+            head(&mut v, 5, n as u64 + if first.is_empty() { 0 } else { 1 });
+            v.extend_from_slice(&first);
+            let bits = (usize::BITS - n.max(2).next_power_of_two().leading_zeros() - 1) as usize;
+            for i in 0..n {
+                if texts {
+                    let mut t = String::with_capacity(2 * bits);
+                    for b in 0..bits.max(1) {
+                        t.push_str(if (i >> b) & 1 == 0 { "Aa" } else { "BB" });
+                    }
+                    rcbor::encode_into(&Item::Text(t), &mut v, &mut rcbor::Style::canonical());
+                } else {
+                    let x = (i as i64 + 70000) & 0x7fff_ffff;
+                    // negative, below the private-use boundary: acceptable as a claim key too
+                    rcbor::encode_into(&Item::int(-((x << 32) | x)), &mut v, &mut rcbor::Style::canonical());
+                }
+                v.push(0x00);
+            }
+            (ty, v, match family {
+                21 => "header map with n text labels that collide under 31-multiplier hashes",
+                22 => "key map with n text labels that collide under 31-multiplier hashes",
+                23 => "claims set with n text keys that collide under 31-multiplier hashes",
+                24 => "header map with n integer labels whose 32-bit halves are equal",
+                25 => "key map with n integer labels whose 32-bit halves are equal",
+                _ => "claims set with n integer keys whose 32-bit halves are equal",
+            })
+        }
         _ => {
             // kid of n bytes in unprotected header of a recipient
             v.extend_from_slice(&[0x83, 0x40, 0xa1, 0x04]);
@@ -667,7 +705,7 @@ pub fn b7_flat(family: u8, n: usize) -> (Ty, Vec<u8>, &'static str) {
         }
     }
 }
-pub const N_FLAT: u8 = 21;
+pub const N_FLAT: u8 = 27;
 
 // ---------------------------------------------------------------------------------------------
 // E2: one-shot child.  Reads lines "<type index> <tagged 0|1> <hex>" from stdin, decodes each on a
